@@ -33,7 +33,7 @@ var instrPkgs = []string{
 	"lib/limit", "lib/load", "lib/discov", "lib/discov/internal", "lib/store/cache", "lib/store/sqlc",
 	"lib/store/sqlx", "lib/store/redis", "lib/store/kv", "lib/errorx", "lib/mathx", "lib/hash",
 	"api/handler", "api", "api/token", "rpc/internal/serverinterceptors", "rpc/internal/clientinterceptors",
-	"rpc/internal/balancer/p2c", "rpc/internal/auth",
+	"rpc/internal/balancer/p2c", "rpc/internal/auth", "lib/proc",
 }
 
 type propCfg struct {
@@ -530,9 +530,7 @@ func check(id, tier string, seed int64) int {
 	var known []string
 	for _, a := range aggs {
 		if len(a.crashes) > 0 {
-			for _, c := range a.crashes {
-				fmt.Fprintln(os.Stderr, "simctl: worker failure:", c)
-			}
+			fmt.Fprintln(os.Stderr, "simctl: worker failure (first of", len(a.crashes), "):", a.crashes[0])
 			infra("%d worker process(es) of %s crashed or produced no result", len(a.crashes), a.unit.pkg)
 		}
 		var classes []string
